@@ -234,8 +234,11 @@ class FakeS3(FakeService):
             if token is not None:
                 try:
                     start = base64.standard_b64decode(token.encode()).decode('utf-8', 'surrogateescape')
-                    if not start.startswith('after:'):
+                    # 'after:<name>' or 'after<k>:<name>' (the token of an empty page: another opaque value, same position)
+                    head, sep, tail_ = start.partition(':')
+                    if not sep or not head.startswith('after') or (head[5:] and not head[5:].isdigit()):
                         raise ValueError
+                    start = 'after:' + tail_
                 except Exception:
                     return self._respond(request, 400, b'<Error><Code>InvalidArgument</Code><Message>bad token</Message></Error>')
                 names = [n for n in names if n > start[6:]]
@@ -246,7 +249,7 @@ class FakeS3(FakeService):
             if self.empty_page_every and rest and page and self.pages % self.empty_page_every == 0:
                 self.empty_pages += 1
                 after = token and start[6:] or ''
-                tok = base64.standard_b64encode(('after:' + after).encode('utf-8', 'surrogateescape')).decode()
+                tok = base64.standard_b64encode((f'after{self.empty_pages}:' + after).encode('utf-8', 'surrogateescape')).decode()
                 if not hasattr(self, '_skip_once') or self._skip_once != (pfx, after):
                     self._skip_once = (pfx, after)
                     xml = ['<?xml version="1.0" encoding="UTF-8"?><ListBucketResult xmlns="http://s3.amazonaws.com/doc/2006-03-01/">',
